@@ -13,6 +13,7 @@ import (
 	"encoding/json"
 	"fmt"
 	"math/rand/v2"
+	"net"
 	"os"
 	"path/filepath"
 	"sync"
@@ -81,6 +82,13 @@ func (h *vfHammerAgent) hit(m string) {
 func vfHammerRound(e *vfEnv, r *vfResult, idx int, loopback bool) { //nolint:cyclop,maintidx
 	rng := e.rng(idx, "hammer")
 	sw := newVfSwitch()
+	withMux := loopback && rng.IntN(2) == 0
+	var muxClosers []func()
+	defer func() {
+		for _, f := range muxClosers {
+			f()
+		}
+	}()
 	mk := func(name string, ip string) (*Agent, error) {
 		ci, ka := 3*time.Millisecond, 5*time.Millisecond
 		dt, ft := 2*time.Second, 3*time.Second
@@ -99,6 +107,20 @@ func vfHammerRound(e *vfEnv, r *vfResult, idx int, loopback bool) { //nolint:cyc
 			cfg.InterfaceFilter = func(n string) bool { return n == "lo" }
 			cfg.CandidateTypes = []CandidateType{CandidateTypeHost}
 			cfg.Urls = nil
+			if withMux {
+				// shared-socket muxes over real loopback sockets: UDP mux plus ICE-TCP (passive through the TCP mux, active dialling)
+				cfg.NetworkTypes = []NetworkType{NetworkTypeUDP4, NetworkTypeTCP4}
+				if uc, err := net.ListenUDP("udp4", &net.UDPAddr{IP: net.IPv4(127, 0, 0, 1)}); err == nil {
+					um := NewUDPMuxDefault(UDPMuxParams{UDPConn: uc, Logger: vfQuietLogger().NewLogger("ice")})
+					cfg.UDPMux = um
+					muxClosers = append(muxClosers, func() { _ = um.Close(); _ = uc.Close() })
+				}
+				if tl, err := net.Listen("tcp4", "127.0.0.1:0"); err == nil {
+					tm := NewTCPMuxDefault(TCPMuxParams{Listener: tl, Logger: vfQuietLogger().NewLogger("ice"), ReadBufferSize: 32})
+					cfg.TCPMux = tm
+					muxClosers = append(muxClosers, func() { _ = tm.Close() })
+				}
+			}
 		} else {
 			cfg.Net = vfSimpleNet(sw, name, ip)
 		}
@@ -162,6 +184,12 @@ func vfHammerRound(e *vfEnv, r *vfResult, idx int, loopback bool) { //nolint:cyc
 	cancel()
 	if connected {
 		r.count("hammer_rounds_connected", 1)
+	}
+	if withMux {
+		r.count("hammer_rounds_udp_tcp_mux", 1)
+		if connected {
+			r.count("hammer_rounds_udp_tcp_mux_connected", 1)
+		}
 	}
 	dur := 1200 * time.Millisecond
 	deadline := time.Now().Add(dur)
@@ -268,6 +296,17 @@ func vfHammerRound(e *vfEnv, r *vfResult, idx int, loopback bool) { //nolint:cyc
 					_ = h.conn.SetWriteDeadline(time.Now().Add(time.Second))
 					_ = h.conn.SetDeadline(time.Now().Add(5 * time.Millisecond)) // never cleared: concurrent readers rely on a deadline being set
 					h.hit("Conn.Set*Deadline")
+				case 24:
+					_ = h.a.OnCandidate(func(Candidate) {})
+					h.hit("OnCandidate")
+				case 25:
+					// a second Dial/Accept on a started agent must be refused, not raced
+					if grng.IntN(2) == 0 {
+						_, _ = h.a.StartDial("x", "y")
+					} else {
+						_, _ = h.a.StartAccept("x", "y")
+					}
+					h.hit("StartDial/StartAccept(again)")
 				case 23:
 					if withRestart && grng.IntN(40) == 0 {
 						_ = h.a.Restart("", "")
@@ -314,9 +353,9 @@ func vfHammerRound(e *vfEnv, r *vfResult, idx int, loopback bool) { //nolint:cyc
 			return true
 		})
 	}
-	r.distinct(fmt.Sprintf("hammer/loopback=%v/goroutines=%d/restart=%v/connected=%v", loopback, nG, withRestart, connected))
+	r.distinct(fmt.Sprintf("hammer/loopback=%v/mux=%v/goroutines=%d/restart=%v/connected=%v", loopback, withMux, nG, withRestart, connected))
 	if idx < 2 {
-		r.sample(map[string]any{"idx": idx, "kind": "api hammer", "loopback_udp": loopback, "goroutines": nG, "connected_before_hammer": connected, "with_restart": withRestart, "duration_ms": dur.Milliseconds()})
+		r.sample(map[string]any{"idx": idx, "kind": "api hammer", "loopback_udp": loopback, "udp_and_tcp_mux": withMux, "goroutines": nG, "connected_before_hammer": connected, "with_restart": withRestart, "duration_ms": dur.Milliseconds()})
 	}
 }
 
